@@ -2805,12 +2805,15 @@ func (le *leaseEntry) renewable() (bool, error) {
 	case le.ExpireTime.IsZero():
 		return false, errors.New("lease is not renewable")
 
-	case le.ClientTokenType == logical.TokenTypeBatch:
-		return false, nil
-
 	// Determine if the lease is expired
 	case le.ExpireTime.Before(time.Now()):
 		return false, errors.New("lease expired")
+
+	// Batch tokens are never reported as renewable. On a secret lease
+	// ClientTokenType is the type of the token that created the lease, so
+	// this must not hide the expiry check above.
+	case le.ClientTokenType == logical.TokenTypeBatch:
+		return false, nil
 
 	// Determine if the lease is renewable
 	case le.Secret != nil && !le.Secret.Renewable:
